@@ -13,6 +13,7 @@ CONTRACTS = {
         props=['C13'],
         args=OD([('self', 'self'), ('args', ('varargs', 2, 'int'))]),
         self={'_size': ('tuple', 'int', 'int')}, dropped_calls=DROP,
+        replay_call="lambda m, a: m.SurfaceManager(*a['self._size']).find_index(*a['args'])",
         returns='int',
         requires=['self._size[0] >= 1', 'self._size[1] >= 1'],
         ensures=['result == args[1] + self._size[1] * args[0]',
@@ -24,6 +25,7 @@ CONTRACTS = {
         props=['C13'],
         args=OD([('self', 'self'), ('args', ('varargs', 3, 'int'))]),
         self={'_size': ('tuple', 'int', 'int', 'int')}, dropped_calls=DROP,
+        replay_call="lambda m, a: m.VolumeManager(*a['self._size']).find_index(*a['args'])",
         returns='int',
         requires=['self._size[0] >= 1', 'self._size[1] >= 1', 'self._size[2] >= 1'],
         ensures=['result == args[1] + self._size[1] * (args[0] + self._size[0] * args[2])',
